@@ -66,10 +66,13 @@ D(d, tok) == [d |-> d, token |-> tok, stake |-> tok \div Unit]
 \* of the second period (block 8) two delegations to v2 and v6's creation take effect and v7's complete withdrawal removes
 \* it; at block 12 v5's complete withdrawal removes it, v2's partial withdrawal and a partial undelegation take effect.
 Gone == [V(0, 0, 0, <<>>) EXCEPT !.status = 0, !.exists = FALSE]
-InitVals == << V(1230, 1230, 0, <<>>), V(1050, 770, 2000, << D(2, 130), D(1, 150) >>), V(300, 300, 0, <<>>), V(2000, 2000, 0, <<>>),
+\* Delegator d1 delegates to TWO validators (v2 and v1) and holds an unfinished withdraw record against each; its record
+\* against v1 precedes its record against v2 in the queue.
+InitVals == << V(1290, 1230, 0, << D(1, 60) >>), V(1050, 770, 2000, << D(2, 130), D(1, 150) >>), V(300, 300, 0, <<>>), V(2000, 2000, 0, <<>>),
                Gone, [V(1500, 1500, 0, <<>>) EXCEPT !.status = 0], Gone >>
 \* (ch: completion height = height at which the withdrawal took effect + WithdrawDelay 6)
-InitWq == << [v |-> 7, d |-> 0, fin |-> 400, done |-> 0, ch |-> 13], [v |-> 5, d |-> 0, fin |-> 600, done |-> 0, ch |-> 17],
+InitWq == << [v |-> 7, d |-> 0, fin |-> 400, done |-> 0, ch |-> 13], [v |-> 1, d |-> 1, fin |-> 40, done |-> 0, ch |-> 17],
+             [v |-> 5, d |-> 0, fin |-> 600, done |-> 0, ch |-> 17],
              [v |-> 2, d |-> 0, fin |-> 230, done |-> 0, ch |-> 17], [v |-> 2, d |-> 1, fin |-> 100, done |-> 0, ch |-> 17] >>
 Period == 4
 \* processWithdrawQueue (endblock.go:490), run AFTER the slashing phase at the end of a staking period ((number + 1) % period = 0):
@@ -317,6 +320,23 @@ PenaltyBounded ==
    Judged => \/ \A v \in 1..NV : \A p \in Paths :
                    Taken(last.pre, PostOf(p), v) <= (Frac * (last.pre.vals[v].token + Pending(last.pre.wq, v))) \div 100
              \/ Cex("PenaltyBounded")
+\* WHERE a penalty comes from ("its stake and pending withdrawals"): only what belongs to a validator against which an evidence
+\* with its own signatures was presented -- its own stake and withdraw records, the delegations to it and the delegators'
+\* withdraw records against IT -- compared per record; and, per owner (the validator itself / each delegator), the unfinished
+\* withdraw records first: a stake or delegation is reduced only when all of that owner's records of the validator are empty
+AccusedOwn == { last.list[i].target : i \in { n \in DOMAIN last.list : LET c == last.list[n] IN
+                   c.roff = last.kk /\ c.target = c.signer /\ c.target # 0 /\ Len(c.pairs) >= 2 /\ \A j \in DOMAIN c.pairs : c.pairs[j].src \in VoteKinds } }
+DlgTok(val, d) == IF \E i \in DOMAIN val.dl : val.dl[i].d = d THEN val.dl[CHOOSE i \in DOMAIN val.dl : val.dl[i].d = d].token ELSE 0
+SourceOK(pre, post) ==
+   /\ \A i \in DOMAIN pre.wq : (pre.wq[i].done = 0 /\ pre.wq[i].fin - PostFin(pre.wq[i], post.wq) > 0) => pre.wq[i].v \in AccusedOwn
+   /\ \A v \in 1..NV : v \notin AccusedOwn => post.vals[v] = pre.vals[v]
+   /\ \A v \in AccusedOwn :
+         /\ (pre.vals[v].selfToken > post.vals[v].selfToken) =>
+               \A i \in DOMAIN pre.wq : (pre.wq[i].v = v /\ pre.wq[i].d = 0 /\ pre.wq[i].done = 0) => PostFin(pre.wq[i], post.wq) = 0
+         /\ \A n \in DOMAIN pre.vals[v].dl : LET d == pre.vals[v].dl[n].d IN
+               (pre.vals[v].dl[n].token > DlgTok(post.vals[v], d)) =>
+                  \A i \in DOMAIN pre.wq : (pre.wq[i].v = v /\ pre.wq[i].d = d /\ pre.wq[i].done = 0) => PostFin(pre.wq[i], post.wq) = 0
+PenaltySource == Judged => (\A p \in Paths : SourceOK(last.pre, PostOf(p))) \/ Cex("PenaltySource")
 \* "accepted by block builder and block validator alike"
 BuilderEqualsValidator ==
    Judged => (last.seal = last.imp /\ last.seal = last.raw) \/ Cex("BuilderEqualsValidator")
